@@ -64,3 +64,7 @@ CORPUS += [
     M("read-bypasses-decode-for-short", L, "        # Decode packet to frame\n        response = _Packet.decode(packet)", "        # Decode packet to frame\n        response = _Packet.decode(packet) if len(packet) > 56 else bytes()"),
     M("n-sign-through-helper", L, "        return md5(data + Security.SIGN_KEY).digest()", "        keyed = data + Security.SIGN_KEY\n        return md5(keyed).digest()", "S"),
 ]
+# round 8 (C03.e): the drain swallows no rejection
+CORPUS += [
+    M("drain-swallows-protocol-error", L, "        except asyncio.QueueEmpty:\n            pass\n\n    async def send(", "        except (asyncio.QueueEmpty, ProtocolError):\n            pass\n\n    async def send("),
+]
